@@ -60,7 +60,7 @@ Definition vmdk_type_of (text : str) : str :=
   match find VMDK_CREATETYPE text with
   | None => VMDK_NOTFOUND
   | Some i =>
-    let type_idx := i + blen VMDK_CREATETYPE in
+    let type_idx := i + flen VMDK_CREATETYPE in
     let type_end : Z := match find_at VMDK_QUOTE text type_idx with Some j => Z.of_N j | None => (-1)%Z end in
     if (type_end - Z.of_N type_idx <? Z.of_N VMDK_TYPE_CAP)%Z
     then zslice (Some (Z.of_N type_idx)) (Some type_end) text
